@@ -91,7 +91,7 @@ impl<'a> Gen<'a> {
         if s["k"] == "ref" { &self.types[s["name"].as_str().unwrap()] } else { s }
     }
     /// returns the JSON text; pushes the value tokens
-    fn val(&mut self, s: &Value, toks: &mut Vec<String>, depth: u32) -> String {
+    fn val(&mut self, s: &Value, toks: &mut Vec<String>, depth: u32) -> (String, String) {
         if s["k"] == "ref" {
             let name = s["name"].as_str().unwrap().to_string();
             let t = self.types[&name].clone();
@@ -101,7 +101,7 @@ impl<'a> Gen<'a> {
             return r;
         }
         match s["k"].as_str().unwrap() {
-            "bool" => { let b = self.rng.chance(1, 2); toks.push(format!("b{}", b as u8)); b.to_string() }
+            "bool" => { let b = self.rng.chance(1, 2); toks.push(format!("b{}", b as u8)); (b.to_string(), b.to_string()) }
             "int" => {
                 let lo = s["lo"].as_i64().map(|x| x as i128).unwrap_or_else(|| s["lo"].as_u64().unwrap() as i128);
                 let hi = s["hi"].as_i64().map(|x| x as i128).unwrap_or_else(|| s["hi"].as_u64().unwrap() as i128);
@@ -113,18 +113,18 @@ impl<'a> Gen<'a> {
                     _ => lo + (self.rng.next_u64() as i128 % (hi - lo + 1)).abs(),
                 };
                 toks.push(format!("i{n}"));
-                n.to_string()
+                (n.to_string(), n.to_string())
             }
             "flt" => {
                 let n = self.rng.below(1 << 16);
                 let t = if n % 8 == 0 { format!("{}.0", n / 8) } else { format!("{}", n as f64 / 8.0) };
                 toks.push(format!("f{t}"));
-                t
+                (t.clone(), t)
             }
             "str" => {
                 let t = if s.get("gen").is_some() { format!("crypto_error_0x1{:02x}", self.rng.below(256)) } else { self.string() };
                 toks.push(format!("s{}", hexs(&t)));
-                jstr(&t)
+                (jstr(&t), jstr(&t))
             }
             "hex" => {
                 let n = match s["len"].as_u64() {
@@ -134,17 +134,18 @@ impl<'a> Gen<'a> {
                 let t = hex(&self.rng.bytes(n));
                 let t = if t == "-" { String::new() } else { t };
                 toks.push(format!("s{}", hexs(&t)));
-                jstr(&t)
+                (jstr(&t), jstr(&t))
             }
-            "any" => { let mut t = vec![]; let j = self.any(&mut t); toks.push(t[0].clone()); j }
+            "any" => { let mut t = vec![]; let j = self.any(&mut t); toks.push(t[0].clone()); (j.clone(), j) }
             "opt" => {
-                if self.rng.chance(1, 3) { toks.push("n".into()); "null".into() } else { toks.push("S".into()); self.val(&s["s"], toks, depth) }
+                if self.rng.chance(1, 3) { toks.push("n".into()); ("null".into(), "null".into()) } else { toks.push("S".into()); self.val(&s["s"], toks, depth) }
             }
             "seq" => {
                 let n = match s["len"].as_u64() { Some(n) => n, None => if depth > 3 { 0 } else { self.rng.below(3) } };
                 toks.push(format!("l{n}"));
-                let parts: Vec<String> = (0..n).map(|_| self.val(&s["s"], toks, depth + 1)).collect();
-                format!("[{}]", parts.join(","))
+                let parts: Vec<(String, String)> = (0..n).map(|_| self.val(&s["s"], toks, depth + 1)).collect();
+                (format!("[{}]", parts.iter().map(|p| p.0.clone()).collect::<Vec<_>>().join(",")),
+                 format!("[{}]", parts.iter().map(|p| p.1.clone()).collect::<Vec<_>>().join(",")))
             }
             "map" => {
                 let n = self.rng.below(2);
@@ -156,7 +157,8 @@ impl<'a> Gen<'a> {
                     let j = self.any(toks);
                     parts.push(format!("{}:{}", jstr(&k), j));
                 }
-                format!("{{{}}}", parts.join(","))
+                let j = format!("{{{}}}", parts.join(","));
+                (j.clone(), j)
             }
             "struct" => {
                 let fields = s["fields"].as_array().unwrap();
@@ -164,28 +166,35 @@ impl<'a> Gen<'a> {
                 let nrest = if rest { self.rng.below(2) } else { 0 };
                 toks.push(format!("r{},{}", fields.len(), nrest));
                 let mut parts: Vec<String> = vec![];
+                let mut full: Vec<String> = vec![];
                 for f in fields {
                     let name = jstr(f["name"].as_str().unwrap());
                     match f["kind"].as_str().unwrap() {
-                        "req" => { let j = self.val(&f["s"], toks, depth + 1); parts.push(format!("{name}:{j}")); }
+                        "req" => { let j = self.val(&f["s"], toks, depth + 1); parts.push(format!("{name}:{}", j.0)); full.push(format!("{name}:{}", j.1)); }
                         k @ ("opt" | "optNull") => {
                             if self.rng.chance(2, 5) || depth > 5 {
                                 toks.push("n".into());
-                                if k == "optNull" { parts.push(format!("{name}:null")); }
+                                if k == "optNull" { parts.push(format!("{name}:null")); full.push(format!("{name}:null")); }
                             } else {
                                 toks.push("S".into());
                                 let j = self.val(&f["s"], toks, depth + 1);
-                                parts.push(format!("{name}:{j}"));
+                                parts.push(format!("{name}:{}", j.0));
+                                full.push(format!("{name}:{}", j.1));
                             }
                         }
                         "skipEmpty" => {
                             let j = self.val(&f["s"], toks, depth + 1);
-                            if j != "[]" && j != "{}" { parts.push(format!("{name}:{j}")); }
+                            if j.0 != "[]" && j.0 != "{}" { parts.push(format!("{name}:{}", j.0)); }
+                            // the text handed to from_str always carries the key (serde answers `missing field` when the
+                            // field has no `default`; that is the finding, the monitor sees it on the way back)
+                            full.push(format!("{name}:{}", j.1));
                         }
                         "flat" => {
                             let j = self.val(&f["s"], toks, depth + 1);
-                            let inner = &j[1..j.len() - 1];
+                            let inner = &j.0[1..j.0.len() - 1];
                             if !inner.is_empty() { parts.push(inner.to_string()); }
+                            let inner = &j.1[1..j.1.len() - 1];
+                            if !inner.is_empty() { full.push(inner.to_string()); }
                         }
                         other => panic!("field kind {other}"),
                     }
@@ -195,15 +204,16 @@ impl<'a> Gen<'a> {
                     toks.push(hexs(&k));
                     let j = self.any(toks);
                     parts.push(format!("{}:{}", jstr(&k), j));
+                    full.push(format!("{}:{}", jstr(&k), j));
                 }
-                format!("{{{}}}", parts.join(","))
+                (format!("{{{}}}", parts.join(",")), format!("{{{}}}", full.join(",")))
             }
             "unitEnum" => {
                 let names = s["names"].as_array().unwrap();
                 let i = self.rng.below(names.len() as u64) as usize;
                 toks.push(format!("v{i}"));
                 toks.push("n".into());
-                jstr(names[i].as_str().unwrap())
+                (jstr(names[i].as_str().unwrap()), jstr(names[i].as_str().unwrap()))
             }
             "untagged" => {
                 let alts = s["alts"].as_array().unwrap();
@@ -213,13 +223,12 @@ impl<'a> Gen<'a> {
                     let mut t = vec![];
                     let save = self.rng.clone();
                     let j = self.val(&alts[i]["s"], &mut t, depth + 1);
-                    let shadow = alts[..i].iter().any(|a| self.might_accept(&a["s"], &j));
-                    if shadow && !self.rng.chance(1, 6) {
+                    let shadow = alts[..i].iter().any(|a| self.might_accept(&a["s"], &j.0));
+                    // a shadowed alternative cannot be built through from_str (it comes back as the earlier alternative):
+                    // only canonical values here; the shadowed ones are probed with hand-built values in `amb_probes`
+                    if shadow {
                         let _ = save;
                         continue;
-                    }
-                    if shadow {
-                        self.amb = Some(self.cur.last().cloned().unwrap_or_default());
                     }
                     toks.push(format!("v{i}"));
                     toks.extend(t);
@@ -234,16 +243,17 @@ impl<'a> Gen<'a> {
                 let i = self.rng.below(alts.len() as u64) as usize;
                 toks.push(format!("v{i}"));
                 let j = self.val(&alts[i]["s"], toks, depth + 1);
-                format!("{{{}:{},{}:{}}}", jstr(s["tag"].as_str().unwrap()), jstr(alts[i]["name"].as_str().unwrap()), jstr(s["content"].as_str().unwrap()), j)
+                let f = |b: &str| format!("{{{}:{},{}:{}}}", jstr(s["tag"].as_str().unwrap()), jstr(alts[i]["name"].as_str().unwrap()), jstr(s["content"].as_str().unwrap()), b);
+                (f(&j.0), f(&j.1))
             }
             "internal" => {
                 let alts = s["alts"].as_array().unwrap();
                 let i = self.rng.below(alts.len() as u64) as usize;
                 toks.push(format!("v{i}"));
                 let j = self.val(&alts[i]["s"], toks, depth + 1);
-                let inner = &j[1..j.len() - 1];
                 let tag = format!("{}:{}", jstr(s["tag"].as_str().unwrap()), jstr(alts[i]["name"].as_str().unwrap()));
-                if inner.is_empty() { format!("{{{tag}}}") } else { format!("{{{tag},{inner}}}") }
+                let f = |j: &str| { let inner = &j[1..j.len() - 1]; if inner.is_empty() { format!("{{{tag}}}") } else { format!("{{{tag},{inner}}}") } };
+                (f(&j.0), f(&j.1))
             }
             other => panic!("schema kind {other}"),
         }
@@ -275,12 +285,12 @@ pub fn run(o: &Opts) {
         if !types.contains_key(&name) { continue; }
         let mut g = Gen { types, rng, amb: None, cur: vec![name.clone()], boundary: false };
         let mut toks = vec![];
-        let json = g.val(&types[&name], &mut toks, 0);
+        let (json, full) = g.val(&types[&name], &mut toks, 0);
         sink.case(&case.to_string());
         seen_types.insert(name.clone());
         let op = format!("ser {} {}", name, toks.join(" "));
         sink.pending(&op);
-        let p = match crate::common::catch(|| c20types::probe(&name, &json)) {
+        let p = match crate::common::catch(|| c20types::probe(&name, &full)) {
             Ok(Some(p)) => p,
             Ok(None) => { sink.line(&op, "NOTYPE"); continue; }
             Err(m) => { sink.line(&op, "PANIC"); sink.monitor_fail(&format!("panic:serde:{name}"), &m); continue; }
@@ -289,8 +299,8 @@ pub fn run(o: &Opts) {
         if g.boundary { sink.branch("int-boundary"); }
         match (&p.parsed, &p.rt) {
             (Err(e), _) => {
-                sink.line(&op, &format!("REJECT {}", hexs(&json)));
-                sink.monitor_fail(&format!("generator-rejected:{name}"), &format!("from_str::<{name}> rejected the text the schema predicts: {json} ({e})"));
+                sink.line(&op, &format!("REJECT {}", hexs(&full)));
+                sink.monitor_fail(&format!("generator-rejected:{name}"), &format!("from_str::<{name}> rejected the text the schema predicts: {full} ({e})"));
             }
             (Ok(s), rt) => {
                 let rtb = matches!(rt, Ok(true));
@@ -322,4 +332,64 @@ pub fn run(o: &Opts) {
     sink.finish(&o.stats, "value with more than 3 tokens");
 }
 
-pub const RUNS: &[(&str, fn(&Opts))] = &[("C20ser", run)];
+/// Hand-built NON-canonical values of the untagged enums whose alternatives overlap (the model says they do not read back
+/// as themselves; `from_str` cannot build them, so they are constructed directly).
+fn amb_probes() -> Vec<(&'static str, String, String, bool)> {
+    use qevent::quic::connectivity::{ConnectionState, GranularConnectionStates};
+    fn one<T: Serialize + DeserializeOwned + PartialEq>(x: T) -> (String, bool) {
+        let s = serde_json::to_string(&x).unwrap();
+        let rt = serde_json::from_str::<T>(&s).map(|y| y == x).unwrap_or(false);
+        (s, rt)
+    }
+    let mut v = vec![];
+    let (s, rt) = one(ConnectionState::Granular(GranularConnectionStates::Closed));
+    v.push(("quic::connectivity::ConnectionState", "v1 v5 n".to_string(), s, rt));
+    let app: qevent::quic::ApplicationError = serde_json::from_str("\"no_error\"").unwrap();
+    let (s, rt) = one(qevent::quic::ConnectionCloseErrorCode::ApplicationError(app));
+    v.push(("quic::ConnectionCloseErrorCode", format!("v2 s{}", hexs("no_error")), s, rt));
+    let app: qevent::quic::ApplicationError = serde_json::from_str("\"crypto_error_0x1ab\"").unwrap();
+    let (s, rt) = one(qevent::quic::ConnectionCloseErrorCode::ApplicationError(app));
+    v.push(("quic::ConnectionCloseErrorCode", format!("v2 s{}", hexs("crypto_error_0x1ab")), s, rt));
+    let (s, rt) = one(qevent::TimeClockType::Custom("system".to_owned()));
+    v.push(("TimeClockType", format!("v1 s{}", hexs("system")), s, rt));
+    let (s, rt) = one(qevent::TimeEpoch::RFC3339DateTime(String::from("Unknow").into()));
+    v.push(("TimeEpoch", format!("v1 s{}", hexs("Unknow")), s, rt));
+    v
+}
+
+pub fn run_amb(o: &Opts) {
+    let mut sink = Sink::new_with_stats(&o.out, &o.stats);
+    for (i, (ty, toks, s, rt)) in amb_probes().into_iter().enumerate() {
+        sink.case(&i.to_string());
+        sink.line(&format!("ser {ty} {toks}"), &format!("{} rt={}", hexs(&s), rt as u8));
+        sink.nontrivial();
+        if !rt {
+            sink.monitor_fail(&format!("roundtrip:untagged-ambiguous:{ty}"), &format!("{ty}: the hand-built value serialises to {s}, which parses back to a different value (an earlier untagged alternative accepts it)"));
+        }
+    }
+    // f64 `time`: serde_json without the `float_roundtrip` feature parses floats approximately, so the wall-clock
+    // milliseconds of a real event may come back one ulp off.  Deterministic search for such a value (monitor only;
+    // the model treats float tokens as opaque, hypothesis `parse . print = id`).
+    sink.case("time");
+    let mut bad: Option<(f64, String)> = None;
+    for k in 0..20000u64 {
+        let t = 1_790_000_000_000.0f64 + (k as f64) * 0.137_519;
+        let data = qevent::EventData::from(qevent::build!(qevent::loglevel::Warning { message: "m", code: 1u64 }));
+        let e = qevent::build!(qevent::Event { time: t, data: data });
+        let s = serde_json::to_string(&e).unwrap();
+        match serde_json::from_str::<qevent::Event>(&s) {
+            Ok(e2) if e2 == e => {}
+            _ => { bad = Some((t, s)); break; }
+        }
+    }
+    match bad {
+        Some((t, s)) => {
+            sink.line("time-search 20000", "inexact");
+            sink.monitor_fail("roundtrip-time-inexact", &format!("Event with time = {t:?} (a plausible wall-clock millisecond value) serialises to {s}, and from_str of that text gives an event with a different f64 time (serde_json built without float_roundtrip)"));
+        }
+        None => sink.line("time-search 20000", "exact"),
+    }
+    sink.finish(&o.stats, "all");
+}
+
+pub const RUNS: &[(&str, fn(&Opts))] = &[("C20ser", run), ("C20amb", run_amb)];
